@@ -99,6 +99,38 @@ Theorem C06_value_out_type_is_kind_payload : forall V vtype (o : op V) z t,
   port_kind vtype o Out z = Ret (ValueKind t) <-> hugr_port_type vtype o Out z = Ret (Some t).
 Proof. exact value_out_type_is_kind_payload. Qed.
 
+(* a reported type is the one the specification assigns, in BOTH directions, for EVERY answer function whose
+   reported types are payloads of the port's kind -- which ports are answered with a type at all is left open
+   (the code answers on every value port of the DataflowOp classes and on the value outputs of a Call; a variant
+   that also answers on the value inputs of a Call is equally admissible): at a value port the specified type,
+   at a static / control-flow / order port and where the node has no port never a type *)
+Theorem C06_reported_type_is_specified : forall V vtype (pt : op V -> dir -> Z -> result (option ty)),
+  kind_payload_reports V vtype pt ->
+  forall o d z t, pt o d z = Ret (Some t) ->
+    match spec_port_kind (ctype_of V vtype) o d z with
+    | Port (ValueKind t0) => t = t0
+    | Port _ | NoPort => False
+    | Unspecified => True
+    end.
+Proof. exact reported_type_is_specified. Qed.
+Theorem C06_port_type_admissible : forall V vtype, kind_payload_reports V vtype (hugr_port_type vtype).
+Proof. exact hugr_port_type_kind_payload. Qed.
+Theorem C06_port_type_call_inputs_admissible : forall V vtype,
+  kind_payload_reports V vtype (hugr_port_type_call_inputs V vtype).
+Proof. exact hugr_port_type_call_inputs_kind_payload. Qed.
+(* today's answer on a value INPUT port: the specified type or (value inputs of a Call) no type *)
+Theorem C06_in_port_type_none_or_specified : forall V vtype (o : op V) z t0,
+  spec_port_kind (ctype_of V vtype) o In z = Port (ValueKind t0) ->
+  hugr_port_type vtype o In z = Ret (Some t0) \/ hugr_port_type vtype o In z = Ret None.
+Proof. exact in_port_type_none_or_specified. Qed.
+(* non-vacuity: the two admissible answer functions differ on value input 1 of the example Call (None / qubit) *)
+Example C06_port_type_choice_example :
+  hugr_port_type vt0 ex_call In 1 = Ret None /\
+  hugr_port_type_call_inputs ty vt0 ex_call In 1 = Ret (Some TQubit) /\
+  hugr_port_type_call_inputs ty vt0 ex_call In 2 = Ret None /\
+  hugr_port_type vt0 ex_call Out 1 = Ret (Some TQubit).
+Proof. repeat split; reflexivity. Qed.
+
 (* non-vacuity: a row-polymorphic function instantiated at a two-element row *)
 Example C06_example :
   function_port_offset ex_call = Ret 2 /\ num_out ex_call = Ret 2 /\
@@ -168,6 +200,262 @@ Example C06_hist_example :
   store_port_type vt0 (run [] [SPut 3 (ONoop (Some TUSize))]) 3 Out 0 = Some (Ret (Some TUSize)).
 Proof. exact ex_hist_reuse. Qed.
 
+(* ---- composition with C05 (second deepening pass): C05's codec model of operations (model/CodecOps.v) and the
+   typing model above are related by the translation [to_c06] (model/OpsBridge.v; total: every one of the 21
+   serialised kinds, ExtOp / Custom and the sugar tags has a counterpart; only C06 has MakeTuple / UnpackTuple /
+   Noop as classes of their own and operations with fields still to be filled in).  C05's names are written
+   qualified (CodecOps.op ...); [V H] is C05's value model, typed by its own [type_of]. ---- *)
+From HV Require model.Codec model.CodecVals model.CodecOps proofs.CodecOpsP proofs.CodecDocP.
+From HV Require model.ComposeDepth proofs.ComposeDepthP proofs.ComposeExamplesP.
+From HV Require Import model.OpsBridge proofs.OpsBridgeP.
+
+Theorem C06_codec_translation_covers : forall H,
+  (forall o : CodecOps.op H, c06_only (to_c06 o) = false) /\
+  (forall o' : op (V H), c06_only o' = false -> exists o : CodecOps.op H, to_c06 o = o') /\
+  (forall o' : op (V H), of_c06 o' = None <-> c06_only o' = true) /\
+  (forall (o' : op (V H)) (o : CodecOps.op H), of_c06 o' = Some o -> to_c06 o = o').
+Proof. exact translation_covers. Qed.
+
+(* the derived facts C05 records for an operation (outer and inner signature rows, output count, static port
+   type: by encoded form) are the answers of the model above for its translation ... *)
+Theorem C06_codec_facts_are_model_answers : forall H h_type (o : CodecOps.op H), bridge_ok o = true ->
+  CodecOps.op_facts H h_type o = enc_reports (c06_reports H h_type (to_c06 o)).
+Proof. exact facts_are_reports. Qed.
+(* ... for every operation C05's guard admits (the object could be encoded) ... *)
+Theorem C06_codec_encodable_is_bridged : forall H h_ok (o : CodecOps.op H),
+  CodecOps.op_ok H h_ok o = true -> bridge_ok o = true.
+Proof. exact op_ok_bridge_ok. Qed.
+(* ... hence the ones the specification assigns: stated on spec/OpsS.v alone (spec_sig / spec_inner_sig /
+   spec_num_out / static_port) and through the typing relation *)
+Theorem C06_codec_facts_are_specified : forall H h_type (o : CodecOps.op H),
+  bridge_ok o = true -> tag_in_range o = true ->
+  CodecOps.op_facts H h_type o = enc_assigned (c06_assigned H h_type (to_c06 o)).
+Proof. exact facts_are_assigned. Qed.
+Theorem C06_codec_facts_are_has_sig : forall H h_type (o : CodecOps.op H), bridge_ok o = true ->
+  (forall s, has_sig (to_c06 o) s <->
+             CodecOps.f_outer (CodecOps.op_facts H h_type o) = Some (enc_rows s) /\ spec_sig (to_c06 o) = Some s) /\
+  (forall s, has_inner_sig (to_c06 o) s <->
+             CodecOps.f_inner (CodecOps.op_facts H h_type o) = Some (enc_rows s) /\ spec_inner_sig (to_c06 o) = Some s) /\
+  (forall n, spec_num_out (to_c06 o) = Some n -> CodecOps.f_num_out (CodecOps.op_facts H h_type o) = Some (N.of_nat n)).
+Proof. exact facts_are_has_sig. Qed.
+
+(* decoding an encoded operation yields an operation whose signature, inner signature, output count and port
+   kinds (every offset, both directions) are STILL the ones the specification assigns to the original -- types
+   compared by their encoding, i.e. up to Python equality ([rows_same], [kind_same]: an extension type comes back
+   opaque, a UnitSum held by a Tag / Conditional / block as the general Sum) -- and nothing new is assigned.
+   Parametric in the payload of function-valued constants exactly like C05_op_roundtrip (the hypothesis is the
+   payload's own round trip); the depth-0 corollary below has no hypothesis. *)
+Theorem C06_codec_preserves_spec_signature : forall H SH (h_enc : H -> SH) h_dec h_nf h_type h_ok,
+  (forall h, h_ok h = true -> h_dec (h_enc h) = h_nf h /\ h_enc (h_nf h) = h_enc h /\
+                              Codec.func_to_serial (h_type (h_nf h)) = Codec.func_to_serial (h_type h)) ->
+  forall (o : CodecOps.op H) (parent : N), CodecOpsP.OpOK H h_ok o ->
+    let o2 := CodecOps.op_deserialize H SH h_dec (CodecOps.op_to_serial H SH h_enc o parent) in
+    (forall s, has_sig (to_c06 o) s ->
+       exists s2 f2, has_sig (to_c06 o2) s2 /\ rows_same s s2 /\ df_sig (to_c06 o2) = Ret f2 /\ (f_in f2, f_out f2) = s2) /\
+    (forall s2, has_sig (to_c06 o2) s2 -> exists s, has_sig (to_c06 o) s /\ rows_same s s2) /\
+    (forall s, has_inner_sig (to_c06 o) s ->
+       exists s2 f2, has_inner_sig (to_c06 o2) s2 /\ rows_same s s2 /\ inner_sig (to_c06 o2) = Ret f2 /\ (f_in f2, f_out f2) = s2) /\
+    (forall n, spec_num_out (to_c06 o) = Some n ->
+       spec_num_out (to_c06 o2) = Some n /\ num_out (to_c06 o2) = Ret (Z.of_nat n)) /\
+    (forall d z, match spec_port_kind (ct H h_type) (to_c06 o) d z with
+                 | Port k => exists k2, port_kind (vt H h_type) (to_c06 o2) d z = Ret k2 /\ kind_same k k2
+                 | NoPort => is_typed (port_kind (vt H h_type) (to_c06 o2) d z) = false
+                 | Unspecified => True
+                 end) /\
+    CodecOps.op_facts H h_type o2 = enc_reports (c06_reports H h_type (to_c06 o)).
+Proof. exact codec_preserves_spec. Qed.
+Theorem C06_codec_preserves_spec_signature_depth0 : forall (o : CodecOps.op E0) (parent : N), CodecOpsP.OpOK E0 e0_ok o ->
+    let o2 := CodecOps.op_deserialize E0 E0 e0 (CodecOps.op_to_serial E0 E0 e0 o parent) in
+    (forall s, has_sig (to_c06 o) s ->
+       exists s2 f2, has_sig (to_c06 o2) s2 /\ rows_same s s2 /\ df_sig (to_c06 o2) = Ret f2 /\ (f_in f2, f_out f2) = s2) /\
+    (forall s2, has_sig (to_c06 o2) s2 -> exists s, has_sig (to_c06 o) s /\ rows_same s s2) /\
+    (forall s, has_inner_sig (to_c06 o) s ->
+       exists s2 f2, has_inner_sig (to_c06 o2) s2 /\ rows_same s s2 /\ inner_sig (to_c06 o2) = Ret f2 /\ (f_in f2, f_out f2) = s2) /\
+    (forall n, spec_num_out (to_c06 o) = Some n ->
+       spec_num_out (to_c06 o2) = Some n /\ num_out (to_c06 o2) = Ret (Z.of_nat n)) /\
+    (forall d z, match spec_port_kind (ct E0 e0_type) (to_c06 o) d z with
+                 | Port k => exists k2, port_kind (vt E0 e0_type) (to_c06 o2) d z = Ret k2 /\ kind_same k k2
+                 | NoPort => is_typed (port_kind (vt E0 e0_type) (to_c06 o2) d z) = false
+                 | Unspecified => True
+                 end) /\
+    CodecOps.op_facts E0 e0_type o2 = enc_reports (c06_reports E0 e0_type (to_c06 o)).
+Proof. exact codec_preserves_spec_depth0. Qed.
+(* the specification's classification of every port, original against normal form of the decoded operation *)
+Theorem C06_codec_port_classification_preserved : forall H SH (h_enc : H -> SH) h_dec h_nf h_type h_ok,
+  (forall h, h_ok h = true -> h_dec (h_enc h) = h_nf h /\ h_enc (h_nf h) = h_enc h /\
+                              Codec.func_to_serial (h_type (h_nf h)) = Codec.func_to_serial (h_type h)) ->
+  forall (o : CodecOps.op H) d z, CodecOpsP.OpOK H h_ok o ->
+    pspec_same (spec_port_kind (ct H h_type) (to_c06 o) d z)
+               (spec_port_kind (ct H h_type) (to_c06 (CodecOps.op_nf H h_nf o)) d z).
+Proof. exact spec_port_kind_nf. Qed.
+
+(* the same for EVERY payload type (any nesting depth of function constants) without any hypothesis, for every
+   operation holding no function-valued constant ([no_payload]: the guard admitting no payload, under which
+   C05's [OpOK] excludes exactly the constants containing a val.Function) *)
+Theorem C06_codec_preserves_spec_signature_no_function_constants : forall H SH (h_enc : H -> SH) (h_dec : SH -> H) h_type,
+  forall (o : CodecOps.op H) (parent : N), CodecOpsP.OpOK H (@no_payload H) o ->
+    let o2 := CodecOps.op_deserialize H SH h_dec (CodecOps.op_to_serial H SH h_enc o parent) in
+    (forall s, has_sig (to_c06 o) s ->
+       exists s2 f2, has_sig (to_c06 o2) s2 /\ rows_same s s2 /\ df_sig (to_c06 o2) = Ret f2 /\ (f_in f2, f_out f2) = s2) /\
+    (forall s2, has_sig (to_c06 o2) s2 -> exists s, has_sig (to_c06 o) s /\ rows_same s s2) /\
+    (forall s, has_inner_sig (to_c06 o) s ->
+       exists s2 f2, has_inner_sig (to_c06 o2) s2 /\ rows_same s s2 /\ inner_sig (to_c06 o2) = Ret f2 /\ (f_in f2, f_out f2) = s2) /\
+    (forall n, spec_num_out (to_c06 o) = Some n ->
+       spec_num_out (to_c06 o2) = Some n /\ num_out (to_c06 o2) = Ret (Z.of_nat n)) /\
+    (forall d z, match spec_port_kind (ct H h_type) (to_c06 o) d z with
+                 | Port k => exists k2, port_kind (vt H h_type) (to_c06 o2) d z = Ret k2 /\ kind_same k k2
+                 | NoPort => is_typed (port_kind (vt H h_type) (to_c06 o2) d z) = false
+                 | Unspecified => True
+                 end) /\
+    CodecOps.op_facts H h_type o2 = enc_reports (c06_reports H h_type (to_c06 o)).
+Proof. exact codec_preserves_spec_no_function_constants. Qed.
+
+(* ... and at ANY nesting depth n of function-valued constants, function constants included, with no hypothesis
+   about operations or payloads: the payload hypothesis is the round trip of the embedded HUGR, which
+   proofs/ComposeDepthP.v (C02 o C05, [tower_rt]) proves for the tower HT md n / ST md n of HUGRs / documents
+   embedded to depth n (okT: that theorem's own premises on the embedded HUGRs -- C02's guard, C05's op_ok on every
+   node, a root with an inner signature -- as a boolean).  [md] is the metadata type with its empty value; the
+   closed form below takes the harness's interned metadata (N, 0 = {}) *)
+Theorem C06_codec_preserves_spec_signature_any_depth :
+  forall (md : Type) (md_nil : md) (md_is_nil : md -> bool),
+    md_is_nil md_nil = true -> (forall m, md_is_nil m = true -> m = md_nil) ->
+  forall (n : nat) (o : CodecOps.op (ComposeDepth.HT md n)) (parent : N),
+    CodecOpsP.OpOK (ComposeDepth.HT md n) (ComposeDepth.okT md md_is_nil n) o ->
+    let H := ComposeDepth.HT md n in
+    let h_type := ComposeDepth.typeT md n in
+    let o2 := CodecOps.op_deserialize H (ComposeDepth.ST md n) (ComposeDepth.decT md md_nil n)
+                (CodecOps.op_to_serial H (ComposeDepth.ST md n) (ComposeDepth.encT md md_is_nil n) o parent) in
+    (forall s, has_sig (to_c06 o) s ->
+       exists s2 f2, has_sig (to_c06 o2) s2 /\ rows_same s s2 /\ df_sig (to_c06 o2) = Ret f2 /\ (f_in f2, f_out f2) = s2) /\
+    (forall s2, has_sig (to_c06 o2) s2 -> exists s, has_sig (to_c06 o) s /\ rows_same s s2) /\
+    (forall s, has_inner_sig (to_c06 o) s ->
+       exists s2 f2, has_inner_sig (to_c06 o2) s2 /\ rows_same s s2 /\ inner_sig (to_c06 o2) = Ret f2 /\ (f_in f2, f_out f2) = s2) /\
+    (forall k, spec_num_out (to_c06 o) = Some k ->
+       spec_num_out (to_c06 o2) = Some k /\ num_out (to_c06 o2) = Ret (Z.of_nat k)) /\
+    (forall d z, match spec_port_kind (ct H h_type) (to_c06 o) d z with
+                 | Port k => exists k2, port_kind (vt H h_type) (to_c06 o2) d z = Ret k2 /\ kind_same k k2
+                 | NoPort => is_typed (port_kind (vt H h_type) (to_c06 o2) d z) = false
+                 | Unspecified => True
+                 end) /\
+    CodecOps.op_facts H h_type o2 = enc_reports (c06_reports H h_type (to_c06 o)).
+Proof. exact codec_preserves_spec_any_depth. Qed.
+Theorem C06_codec_preserves_spec_signature_any_depth_closed :
+  forall (n : nat) (o : CodecOps.op (ComposeDepth.HT N n)) (parent : N),
+    CodecOpsP.OpOK (ComposeDepth.HT N n) (ComposeDepth.okT N ComposeExamplesP.is0 n) o ->
+    let H := ComposeDepth.HT N n in
+    let h_type := ComposeDepth.typeT N n in
+    let o2 := CodecOps.op_deserialize H (ComposeDepth.ST N n) (ComposeDepth.decT N 0%N n)
+                (CodecOps.op_to_serial H (ComposeDepth.ST N n) (ComposeDepth.encT N ComposeExamplesP.is0 n) o parent) in
+    (forall s, has_sig (to_c06 o) s ->
+       exists s2 f2, has_sig (to_c06 o2) s2 /\ rows_same s s2 /\ df_sig (to_c06 o2) = Ret f2 /\ (f_in f2, f_out f2) = s2) /\
+    (forall s2, has_sig (to_c06 o2) s2 -> exists s, has_sig (to_c06 o) s /\ rows_same s s2) /\
+    (forall s, has_inner_sig (to_c06 o) s ->
+       exists s2 f2, has_inner_sig (to_c06 o2) s2 /\ rows_same s s2 /\ inner_sig (to_c06 o2) = Ret f2 /\ (f_in f2, f_out f2) = s2) /\
+    (forall k, spec_num_out (to_c06 o) = Some k ->
+       spec_num_out (to_c06 o2) = Some k /\ num_out (to_c06 o2) = Ret (Z.of_nat k)) /\
+    (forall d z, match spec_port_kind (ct H h_type) (to_c06 o) d z with
+                 | Port k => exists k2, port_kind (vt H h_type) (to_c06 o2) d z = Ret k2 /\ kind_same k k2
+                 | NoPort => is_typed (port_kind (vt H h_type) (to_c06 o2) d z) = false
+                 | Unspecified => True
+                 end) /\
+    CodecOps.op_facts H h_type o2 = enc_reports (c06_reports H h_type (to_c06 o)).
+Proof. exact codec_preserves_spec_any_depth_closed. Qed.
+(* non-vacuity at depth 1: a Const holding a function value whose body is a 5-node DFG bool -> option(bool) (itself
+   containing a constant): the constant port carries the function type of the body's root before and after *)
+Example C06_codec_example_function_constant :
+  CodecOpsP.OpOK (ComposeDepth.HT N 1) (ComposeDepth.okT N ComposeExamplesP.is0 1) exb_fconst /\
+  spec_port_kind (ct (ComposeDepth.HT N 1) (ComposeDepth.typeT N 1)) (to_c06 exb_fconst) Out 0 =
+    Port (ConstKind ComposeExamplesP.tfn) /\
+  spec_num_out (to_c06 exb_fconst) = Some 1%nat /\
+  port_kind (vt (ComposeDepth.HT N 1) (ComposeDepth.typeT N 1))
+    (to_c06 (CodecOps.op_deserialize (ComposeDepth.HT N 1) (ComposeDepth.ST N 1) (ComposeDepth.decT N 0%N 1)
+               (CodecOps.op_to_serial (ComposeDepth.HT N 1) (ComposeDepth.ST N 1) (ComposeDepth.encT N ComposeExamplesP.is0 1) exb_fconst 0%N)))
+    Out 0 = Ret (ConstKind ComposeExamplesP.tfn).
+Proof. exact ex_bridge_function_constant. Qed.
+
+(* the translation forgets nothing but the description of an ExtOp's definition (not part of the model above) *)
+Theorem C06_codec_translation_faithful : forall H (o : CodecOps.op H), of_c06 (to_c06 o) = Some (forget_descr o).
+Proof. exact of_c06_to_c06. Qed.
+(* the two independently written models of _CallOrLoad.__init__ agree: C05's guard CallWF (the object is one the
+   constructor can have built) holds exactly when the constructor model above builds the translated operation *)
+Theorem C06_codec_call_constructors_agree : forall H (sig : Codec.polytype) (inst : Codec.functype) (ta : list tyarg),
+  (CodecOpsP.CallWF sig inst ta <->
+     call_new (pl sig) (Some (fn inst)) (Some ta) = Ret (to_c06 (CodecOps.OCall (H:=H) sig inst ta))) /\
+  (CodecOpsP.CallWF sig inst ta <->
+     loadfunc_new (pl sig) (Some (fn inst)) (Some ta) = Ret (to_c06 (CodecOps.OLoadFunc (H:=H) sig inst ta))).
+Proof. exact call_constructors_agree. Qed.
+
+(* the direction of documents this library did not write: whatever serial operation is decoded (any payload, no
+   guard: a decoded operation is never a block over a non-sum nor an ExtOp), the derived facts of the decoded
+   operation are the answers of the model above for it *)
+Theorem C06_codec_decoded_facts_are_model_answers : forall H SH (h_dec : SH -> H) h_type (s : CodecOps.sop SH),
+  CodecOps.op_facts H h_type (CodecOps.op_deserialize H SH h_dec s) =
+  enc_reports (c06_reports H h_type (to_c06 (CodecOps.op_deserialize H SH h_dec s))).
+Proof. exact decoded_facts_are_reports. Qed.
+
+(* C05's sugar tag operations are the sugar constructors of the model above, with the specified signature *)
+Theorem C06_codec_sugar_tags : forall H (s : CodecOps.tagsugar),
+  to_c06 (CodecOps.sugar_tag H s) =
+    match s with
+    | CodecOps.TgSome l => some_new l
+    | CodecOps.TgRight l r | CodecOps.TgBreak l r => right_new (TSum [l; r])
+    | CodecOps.TgLeft l r | CodecOps.TgContinue l r => left_new (TSum [l; r])
+    end /\
+  has_sig (to_c06 (CodecOps.sugar_tag H s))
+    match s with
+    | CodecOps.TgSome l => (l, [TSum [[]; l]])
+    | CodecOps.TgRight l r | CodecOps.TgBreak l r => (r, [TSum [l; r]])
+    | CodecOps.TgLeft l r | CodecOps.TgContinue l r => (l, [TSum [l; r]])
+    end.
+Proof. exact sugar_tags_agree. Qed.
+
+(* non-vacuity (proofs/OpsBridgeP.v): a Call of forall (r : [Type]). r -> r instantiated at [usize, ext] (arity 1 ->
+   2, the function port at 2, the extension type decoded opaque); a TailLoop with just-inputs [ext], just-outputs
+   [usize, qubit], rest [qubit]; a Conditional over the compact UnitSum(2), decoded as Sum([[],[]]): signature
+   preserved up to Python equality and NOT syntactically; the sugar operation Right([ext], [usize, qubit]) *)
+Example C06_codec_example_call :
+  CodecOpsP.OpOK E0 e0_ok exb_call /\
+  has_sig (to_c06 exb_call) ([TUSize; ex_ext], [TUSize; ex_ext]) /\
+  spec_port_kind (ct E0 e0_type) (to_c06 exb_call) In 2 = Port (FunctionKind (pl exb_poly)) /\
+  spec_num_out (to_c06 exb_call) = Some 2%nat /\
+  has_sig (to_c06 (CodecOps.op_deserialize E0 E0 e0 (CodecOps.op_to_serial E0 E0 e0 exb_call 0%N))) ([TUSize; ex_opq], [TUSize; ex_opq]) /\
+  port_kind (vt E0 e0_type) (to_c06 (CodecOps.op_deserialize E0 E0 e0 (CodecOps.op_to_serial E0 E0 e0 exb_call 0%N))) In 2 = Ret (FunctionKind (pl exb_poly)) /\
+  port_kind (vt E0 e0_type) (to_c06 (CodecOps.op_deserialize E0 E0 e0 (CodecOps.op_to_serial E0 E0 e0 exb_call 0%N))) In 1 = Ret (ValueKind ex_opq) /\
+  num_out (to_c06 (CodecOps.op_deserialize E0 E0 e0 (CodecOps.op_to_serial E0 E0 e0 exb_call 0%N))) = Ret 2 /\
+  rows_same ([TUSize; ex_ext], [TUSize; ex_ext]) ([TUSize; ex_opq], [TUSize; ex_opq]) /\
+  CodecOps.f_outer (CodecOps.op_facts E0 e0_type exb_call) = Some (enc_rows ([TUSize; ex_ext], [TUSize; ex_ext])).
+Proof. exact ex_bridge_call. Qed.
+Example C06_codec_example_tailloop :
+  CodecOpsP.OpOK E0 e0_ok exb_loop /\
+  has_sig (to_c06 exb_loop) ([ex_ext; TQubit], [TUSize; TQubit; TQubit]) /\
+  has_inner_sig (to_c06 exb_loop) ([ex_ext; TQubit], [TSum [[ex_ext]; [TUSize; TQubit]]; TQubit]) /\
+  has_sig (to_c06 (CodecOps.op_deserialize E0 E0 e0 (CodecOps.op_to_serial E0 E0 e0 exb_loop 0%N))) ([ex_opq; TQubit], [TUSize; TQubit; TQubit]) /\
+  has_inner_sig (to_c06 (CodecOps.op_deserialize E0 E0 e0 (CodecOps.op_to_serial E0 E0 e0 exb_loop 0%N)))
+                ([ex_opq; TQubit], [TSum [[ex_opq]; [TUSize; TQubit]]; TQubit]) /\
+  num_out (to_c06 (CodecOps.op_deserialize E0 E0 e0 (CodecOps.op_to_serial E0 E0 e0 exb_loop 0%N))) = Ret 3 /\
+  CodecOps.op_facts E0 e0_type (CodecOps.op_deserialize E0 E0 e0 (CodecOps.op_to_serial E0 E0 e0 exb_loop 0%N)) =
+    enc_reports (c06_reports E0 e0_type (to_c06 exb_loop)).
+Proof. exact ex_bridge_tailloop. Qed.
+Example C06_codec_example_conditional :
+  CodecOpsP.OpOK E0 e0_ok exb_cond /\
+  has_sig (to_c06 exb_cond) ([TUnitSum 2; ex_ext], [TQubit]) /\
+  case_inputs (to_c06 exb_cond) 1 [ex_ext] /\
+  has_sig (to_c06 (CodecOps.op_deserialize E0 E0 e0 (CodecOps.op_to_serial E0 E0 e0 exb_cond 0%N))) ([TSum [[]; []]; ex_opq], [TQubit]) /\
+  case_inputs (to_c06 (CodecOps.op_deserialize E0 E0 e0 (CodecOps.op_to_serial E0 E0 e0 exb_cond 0%N))) 1 [ex_opq] /\
+  rows_same ([TUnitSum 2; ex_ext], [TQubit]) ([TSum [[]; []]; ex_opq], [TQubit]) /\
+  ([TUnitSum 2; ex_ext], [TQubit]) <> ([TSum [[]; []]; ex_opq], [TQubit]).
+Proof. exact ex_bridge_conditional. Qed.
+Example C06_codec_example_tag_sugar :
+  CodecOpsP.OpOK E0 e0_ok exb_right /\
+  to_c06 exb_right = right_new (TSum [[ex_ext]; [TUSize; TQubit]]) /\
+  has_sig (to_c06 exb_right) ([TUSize; TQubit], [TSum [[ex_ext]; [TUSize; TQubit]]]) /\
+  has_sig (to_c06 (CodecOps.op_deserialize E0 E0 e0 (CodecOps.op_to_serial E0 E0 e0 exb_right 0%N)))
+          ([TUSize; TQubit], [TSum [[ex_opq]; [TUSize; TQubit]]]) /\
+  port_kind (vt E0 e0_type) (to_c06 (CodecOps.op_deserialize E0 E0 e0 (CodecOps.op_to_serial E0 E0 e0 exb_right 0%N))) Out 0 =
+    Ret (ValueKind (TSum [[ex_opq]; [TUSize; TQubit]])) /\
+  num_out (to_c06 (CodecOps.op_deserialize E0 E0 e0 (CodecOps.op_to_serial E0 E0 e0 exb_right 0%N))) = Ret 1.
+Proof. exact ex_bridge_tag_sugar. Qed.
+
 Print Assumptions C06_signature_is_specified.
 Print Assumptions C06_signature_only_specified.
 Print Assumptions C06_signature_unique.
@@ -188,6 +476,10 @@ Print Assumptions C06_port_kind_correct.
 Print Assumptions C06_no_invented_port.
 Print Assumptions C06_num_out_correct.
 Print Assumptions C06_value_out_type_is_kind_payload.
+Print Assumptions C06_reported_type_is_specified.
+Print Assumptions C06_port_type_admissible.
+Print Assumptions C06_port_type_call_inputs_admissible.
+Print Assumptions C06_in_port_type_none_or_specified.
 Print Assumptions C06_call_counts_orig_refuted.
 Print Assumptions C06_order_port_orig_refuted.
 Print Assumptions C06_store_holds_last_op.
@@ -199,3 +491,23 @@ Print Assumptions C06_hist_signature_is_specified.
 Print Assumptions C06_hist_num_out_correct.
 Print Assumptions C06_hist_vacant_no_answer.
 Print Assumptions C06_hist_answers_ignore_the_past.
+Print Assumptions C06_codec_translation_covers.
+Print Assumptions C06_codec_facts_are_model_answers.
+Print Assumptions C06_codec_encodable_is_bridged.
+Print Assumptions C06_codec_facts_are_specified.
+Print Assumptions C06_codec_facts_are_has_sig.
+Print Assumptions C06_codec_preserves_spec_signature.
+Print Assumptions C06_codec_preserves_spec_signature_depth0.
+Print Assumptions C06_codec_port_classification_preserved.
+Print Assumptions C06_codec_sugar_tags.
+Print Assumptions C06_codec_example_call.
+Print Assumptions C06_codec_example_tailloop.
+Print Assumptions C06_codec_example_conditional.
+Print Assumptions C06_codec_example_tag_sugar.
+Print Assumptions C06_codec_preserves_spec_signature_no_function_constants.
+Print Assumptions C06_codec_translation_faithful.
+Print Assumptions C06_codec_call_constructors_agree.
+Print Assumptions C06_codec_decoded_facts_are_model_answers.
+Print Assumptions C06_codec_preserves_spec_signature_any_depth.
+Print Assumptions C06_codec_preserves_spec_signature_any_depth_closed.
+Print Assumptions C06_codec_example_function_constant.
